@@ -8,7 +8,7 @@ import random
 import re
 import shutil
 from vflib import core, mfrontlib
-from vflib.core import Broken, finish, validate_trace
+from vflib.core import Broken, finish, validate_trace, binding_selftest
 
 
 # some behaviours of the repository refer to material properties defined in other files of the test tree
@@ -140,6 +140,10 @@ def run(ctx):
     if failures:
         raise Broken("%d mfront runs failed" % failures)
     v = validate_trace(ctx, "mfront/MFrontRunTrace", "MFrontRunTrace.cfg", events, name="det")
+    if v["accepted"]:
+        def other_digest(e):
+            e[-1]["d"] = [x.split("=")[0] + "=000000000000" for x in e[-1]["d"]]
+        binding_selftest(ctx, "mfront/MFrontRunTrace", "MFrontRunTrace.cfg", events, other_digest, "a run whose generated files have other digests than first observed")
     if not v["accepted"]:
         pos = v["res"].depth - 1 if v["violated"] else v["maxl"]
         at = events[pos - 1] if 0 < pos <= len(events) else None
